@@ -72,6 +72,14 @@ inductive Op where
   | assignInPlace (a c : Nat)
   /-- constructors: a new register with `R * C` fresh tokens -/
   | newMatrix (R C : Nat)
+  /-- `*m.get_mut(index)? = value` (and a write through a mutable view / `iter_elements_mut`): the
+  token at offset `k` is dropped and replaced by one fresh token; nothing happens when `k` is not
+  an offset of the matrix (the call returned `IndexOutOfBounds`) -/
+  | setElem (r k : Nat)
+  /-- `let e = m.get_mut(index)?; *e = f(*e)` with `f` taking its argument by value: the old token is
+  consumed by the closure (dropped) and the one it returns (fresh, value computed from the old
+  one) takes its place -/
+  | updElem (r k : Nat)
   deriving Repr
 
 def swapList (l : List Tok) (i j : Nat) : List Tok :=
@@ -171,6 +179,26 @@ def step (w : World) : Op → World
   | .newMatrix R C =>
     { w with regs := w.regs ++ [{ major := R, minor := C, data := fresh w.nextId (R * C) (fun _ => 0) }],
              nextId := w.nextId + R * C }
+  | .setElem r k =>
+    match w.regs[r]? with
+    | none => w
+    | some m =>
+      match m.data[k]? with
+      | none => w
+      | some t =>
+        { w with regs := w.regs.set r { m with data := m.data.set k ⟨w.nextId, 0⟩ },
+                 nextId := w.nextId + 1,
+                 dropped := w.dropped ++ [t.id] }
+  | .updElem r k =>
+    match w.regs[r]? with
+    | none => w
+    | some m =>
+      match m.data[k]? with
+      | none => w
+      | some t =>
+        { w with regs := w.regs.set r { m with data := m.data.set k ⟨w.nextId, t.val + 1⟩ },
+                 nextId := w.nextId + 1,
+                 dropped := w.dropped ++ [t.id] }
 
 def run (w : World) (ops : List Op) : World := ops.foldl step w
 
@@ -220,5 +248,13 @@ def delta (w : World) : Op → Nat × Nat × Nat
     | none => (0, 0, 0)
     | some _ => (c, c, 0)
   | .newMatrix R C => (R * C, 0, 0)
+  | .setElem r k =>
+    match w.regs[r]? with
+    | none => (0, 0, 0)
+    | some m => if k < m.data.length then (1, 1, 0) else (0, 0, 0)
+  | .updElem r k =>
+    match w.regs[r]? with
+    | none => (0, 0, 0)
+    | some m => if k < m.data.length then (1, 1, 0) else (0, 0, 0)
 
 end Matreex.Ledger
